@@ -521,15 +521,15 @@ def bounds(exp, ignore_single_points=False):
     return (min(xs), min(ys), max(xs), max(ys))
 
 
-def control_bounds(contours, ignore_single_points=False):
+def control_bounds(exp, ignore_single_points=False):
+    """Bounding box of all control points of the Bezier segments drawn (expanded contours):
+    for a super-bezier these are the control points of its cubic pieces."""
     pts = []
-    for c in contours:
-        if c[0] == "b":
-            pts.extend(c[1])
-        elif c[3] or not ignore_single_points:
-            pts.append(c[2])
-            for s in c[3]:
-                pts.extend(s[2:])
+    for _closed, start, segs in exp:
+        if segs or not ignore_single_points:
+            pts.append(start)
+        for s in segs:
+            pts.extend(s[1:])
     if not pts:
         return None
     return (min(p[0] for p in pts), min(p[1] for p in pts), max(p[0] for p in pts), max(p[1] for p in pts))
@@ -565,6 +565,8 @@ class SegGrammar:
         out = []
         if inc:
             out.append((("Z",), (False, 0, ncont + 1, npts, ncomp)))
+            if nseg < 0:
+                return out  # a contour without on-curve point is closed by definition
             out.append((("E",), (False, 0, ncont + 1, npts, ncomp)))
             if nseg < self.max_segs:
                 room = self.budget(ncont + 1, ncomp) - npts
@@ -583,7 +585,7 @@ class SegGrammar:
                     out.append((("M", p), (True, 0, ncont, npts + 1, ncomp)))
             for k in range(1, min(room, self.max_blob) + 1):
                 for tup in self._tuples[k]:
-                    out.append((("B",) + tup, (True, self.max_segs, ncont, npts + k, ncomp)))
+                    out.append((("B",) + tup, (True, -1, ncont, npts + k, ncomp)))
         if ncomp < self.max_comps and npts <= self.p3:
             for name, t in self.comps:
                 out.append((("K", name, tuple(t)), (False, 0, ncont, npts, ncomp + 1)))
@@ -602,7 +604,7 @@ class SegGrammar:
             elif k in ("L", "C", "Q"):
                 nseg, npts = nseg + 1, npts + len(c) - 1
             elif k == "B":
-                inc, nseg, npts = True, self.max_segs, npts + len(c) - 1
+                inc, nseg, npts = True, -1, npts + len(c) - 1
             elif k in ("Z", "E"):
                 inc, nseg, ncont = False, 0, ncont + 1
             elif k == "K":
